@@ -11,3 +11,7 @@ def fill(claim, not_yet):
 		'Generated constant expressions are planted as enum member values; the real evaluator is run on every member value node and the emitted text of E.X.value is read back from a real transpile; CPython (eval of the expression and execution of the module, two routes that must agree) is the oracle for value and type; refusals must be application errors.',
 		'Trusted: CPython eval/exec, ast.literal_eval for decoding string tokens and emitted literals. Outside: expressions CPython itself rejects, string prefixes, enum aliasing; the C++ spelling of triple-quoted / embedded-double-quote string tokens is judged at the evaluator only (string-literal translation belongs to C01).',
 		'DESIGN.md §4 C17')
+	claim('C13', 'exploration', 'runtime monitoring: real Tokenizer/Lexer on generated sources under layout rewrites, judged by the standard tokenize module and concat/span/balance laws',
+		'Each generated block structure is rendered under five layouts; for every text the significant token sequence of the real Tokenizer must equal CPython tokenize output (NEWLINE/INDENT/DEDENT included), be identical across layouts, balance indents and dedents, and the raw lexer tokens must concatenate to the source with spans addressing their own text.',
+		'Trusted: tokenize from the standard library (3.13), the renderer in vf/props/c13.py. Lexical subset as listed in the evidence assumptions.',
+		'DESIGN.md §4 C13')
